@@ -345,6 +345,9 @@ class GlassoSeam(object):
       P[d - 1, d - 1] = -np.inf
     elif mode == "indefinite":
       P[d - 1, d - 1] = -1.0
+    elif mode == "indefinite_even":      # two negative eigenvalues: det > 0
+      P[d - 1, d - 1] = -1.0
+      P[0, 0] = -2.0
     elif mode == "slightly_negative":
       P[d - 1, d - 1] = -1e-6
     elif mode == "all_nan":
@@ -357,7 +360,7 @@ class GlassoSeam(object):
 
 
 GLASSO_FAULTS = ["raise_fpe", "raise_linalg", "raise_value", "nan", "inf",
-                 "neginf", "indefinite", "slightly_negative", "all_nan"]
+                 "neginf", "indefinite", "indefinite_even", "slightly_negative", "all_nan"]
 
 
 # ------------------------------------------------------------------ clock seam
